@@ -132,25 +132,27 @@ theorem plain_hasDefault (hp : Plain s) {n : NodeD} (hn : n ∈ I.nodes) {p : Na
     (hpa : p ∈ I.spec.all) (hd : n.hasDefault.contains p = true) :
     (elabGraphNode s I).hasDefault.contains p = true := by
   have hdef : (elabGraphNode s I).hasDefault = (I.spec.all.filter fun p =>
-      AL.has I.spec.bound p || (I.nodes.filter fun n => n.inputs.contains p).any fun n => n.hasDefault.contains p).map
+      AL.has I.spec.bound p || (!s.mapOver.contains (renameOf s.inRen p) &&
+        (I.nodes.filter fun n => n.inputs.contains p).any fun n => n.hasDefault.contains p)).map
         (renameOf s.inRen) := rfl
-  rw [hdef, hp.inRen, map_renameOf_nil]
+  rw [hdef, hp.inRen, hp.mapOver, map_renameOf_nil]
   simp only [List.contains_iff_mem, List.mem_filter]
   refine ⟨hpa, ?_⟩
-  simp only [Bool.or_eq_true, List.any_eq_true, List.mem_filter]
-  exact Or.inr ⟨n, ⟨hn, by simpa using hpn⟩, hd⟩
+  simp only [Bool.or_eq_true, Bool.and_eq_true, List.any_eq_true, List.mem_filter]
+  exact Or.inr ⟨by simp, n, ⟨hn, by simpa using hpn⟩, hd⟩
 
 /-- conversely a default reported by the wrapper comes from an inner user (no bound values) -/
 theorem plain_hasDefault_inv (hp : Plain s) (hb : I.spec.bound = []) {p : Name}
     (hd : (elabGraphNode s I).hasDefault.contains p = true) :
     ∃ n ∈ I.nodes, p ∈ n.inputs ∧ n.hasDefault.contains p = true := by
   have hdef : (elabGraphNode s I).hasDefault = (I.spec.all.filter fun p =>
-      AL.has I.spec.bound p || (I.nodes.filter fun n => n.inputs.contains p).any fun n => n.hasDefault.contains p).map
+      AL.has I.spec.bound p || (!s.mapOver.contains (renameOf s.inRen p) &&
+        (I.nodes.filter fun n => n.inputs.contains p).any fun n => n.hasDefault.contains p)).map
         (renameOf s.inRen) := rfl
-  rw [hdef, hp.inRen, map_renameOf_nil] at hd
+  rw [hdef, hp.inRen, hp.mapOver, map_renameOf_nil] at hd
   simp only [List.contains_iff_mem, List.mem_filter, hb, AL.has, AL.get?_nil, Option.isSome_none,
-    Bool.false_or, List.any_eq_true] at hd
-  obtain ⟨_, n, hn, hd⟩ := hd
+    Bool.false_or, Bool.and_eq_true, List.any_eq_true] at hd
+  obtain ⟨_, _, n, hn, hd⟩ := hd
   exact ⟨n, hn.1, by simpa using hn.2, by simpa using hd⟩
 end plain
 
